@@ -1,4 +1,5 @@
-Require Import Base.Bytes Net.Frame Net.FrameProofs Net.Framed Net.FramedProofs Net.Concrete Gen.NetConsts Props.C09.
+Require Import Base.Bytes Net.Frame Net.FrameProofs Net.Framed Net.FramedProofs Net.Concrete Gen.NetConsts Net.ConvProofs.
+Require Import Props.C09.
 Local Open Scope N_scope.
 Check c09_rejects_iff :
   forall packet ver_of is_keepalive version verify pong (p : packet) v,
@@ -14,7 +15,14 @@ Check c09_expected_frame_is_gate :
   parse (tl f) = Ok p ->
   expected_frame packet parse ver_of is_keepalive version verify pong f
   = deliver packet ver_of is_keepalive version verify pong p.
+Check c09_caller_writes_do_not_matter :
+  forall (packet : Type) (parse : bytes -> res packet) (ver_of : packet -> option N)
+         (is_keepalive : packet -> bool) (version : N) (m : mode) (verify : bool) (pong : bytes),
+  forall ops buf tr,
+    map snd (filter (from_read packet) (conv packet parse ver_of is_keepalive version m verify pong ops buf tr))
+    = session packet parse ver_of is_keepalive version m verify pong (reads ops) buf tr.
 Print Assumptions c09_rejects_iff.
 Print Assumptions c09_delivers_otherwise.
 Print Assumptions c09_version_is_9.
 Print Assumptions c09_expected_frame_is_gate.
+Print Assumptions c09_caller_writes_do_not_matter.
